@@ -2098,8 +2098,8 @@ def drv_boilerplate_template_isolation(tier, seed):
             'template field content at every depth (list: append/insert/extend/+=/*=/item/slice/del/pop/remove/reverse/clear/'
             'MISSING/rebind replace+insert+append+delete; dict: []=/attr/update/|=/rebind/pop/del/MISSING/clear; object: '
             'rebind/attr/sym_init_args; path rebind and rebinder from the template root; replacement and removal of the whole '
-            'field), single writes from a fresh build and histories of 2 writes (all in thorough; quick: template partially '
-            'bound: all single writes + 8 seeded pairs per kind, fully bound: 6 seeded single writes + 3 pairs); after each history: instances created before and after it equal the model of the frozen '
+            'field), single writes from a fresh build and histories of 2 writes (thorough: all single writes + 300 seeded pairs per kind and template; quick: template partially '
+            'bound: all single writes + 6 seeded pairs per kind, fully bound: 5 seeded single writes + 2 pairs); after each history: instances created before and after it equal the model of the frozen '
             'values and are accepted (mapped to themselves) by their class schema, the base-class instance and the template '
             'still satisfy the base schema')
   rnd = rng(seed, 'c03-boilerplate')
@@ -2109,9 +2109,11 @@ def drv_boilerplate_template_isolation(tier, seed):
       singles = [(w,) for w in e['writes']]
       pairs = [(a, b) for a in e['writes'] for b in e['writes']]
       if tier == 'quick':
-        pairs = rnd.sample(pairs, min(3 if full else 8, len(pairs)))
+        pairs = rnd.sample(pairs, min(2 if full else 6, len(pairs)))
         if full:
-          singles = rnd.sample(singles, min(6, len(singles)))
+          singles = rnd.sample(singles, min(5, len(singles)))
+      else:
+        pairs = rnd.sample(pairs, min(300, len(pairs)))
       histories = [()] + singles + pairs
       for h in histories:
         try:
@@ -2161,7 +2163,7 @@ def drv_boilerplate_object_writes(tier, seed):
       'C03', 'instance of a pg.boilerplate_class: every write path',
       scope=f'class Obj = boilerplate_class(ObjBase.partial(f=V)) for ObjBase(f: SPEC, g: Int default, h: frozen Int, r: required '
             f'Int[0,5]); {len(bases)} SPECs (Int, Str regex, Bool, Float, Enum, List, Tuple, Dict, Union, Any) with V a valid '
-            'value, and SPEC.noneable() with V = None; all object write paths of drv_object_writes aimed at f (now frozen at V), '
+            'value, and SPEC.noneable() with V = None; all object write paths of drv_object_writes aimed at f (now frozen at V) and (quick: for every fourth SPEC) '
             'g (frozen at the default), h, r and undeclared keys x one sample per input class (all samples in thorough); modes '
             'full, partial (quick: the noneable chain for every third SPEC, mode partial for every third SPEC); single steps '
             'from a valid state')
@@ -2187,7 +2189,7 @@ def drv_boilerplate_object_writes(tier, seed):
       for mode in (('full',) if tier == 'quick' and (none or bi % 3 != 1) else ('full', 'partial')):
         sub = boilerplate_subject(b, fd, frz, mode)
         _run_dict_like(rec, sub, fd, (fd.name, 'boilerplate', mode), repeat=(tier != 'quick'), ops_filter=_bp_ops,
-                       fine=True, partner=('r', '2', 2))
+                       fine=True, partner=('r', '2', 2), focus=(tier == 'quick' and bi % 4 != 0))
   return rec.result()
 
 
